@@ -183,6 +183,8 @@ def check(model: Model, tier: str):
     obs += type_body(model, "_division.amen_divide")
     from ..normguard import rule_train_init
     obs += rule_train_init(model, "_division.amen_divide")
+    from ..normguard import rule_residual_gauge
+    obs += rule_residual_gauge(model, "_division.amen_divide")
     obs += rule_defattr(model, "torchtt._division.LinearOp")
     eng = Effects(model)
     from .c06 import EXCEPTIONS, verify_amen_divide_exception
